@@ -655,6 +655,20 @@ static void op_query(Run &r, Box &b, Tape &t)
     else { VP_CHECK(r.cx, top == nullptr, "seq:top_empty", "top of empty container is not null"); }
     void *end = b.is_buf ? a_buf_end(b.b) : a_vec_end(b.v);
     if (end) { VP_CHECK(r.cx, end == base + b.siz * num, "seq:end", "end pointer is not one past the last element"); }
+    // the unchecked spellings (valid arguments only) and the typed macro forms agree with the checked ones
+    if (idx < mem)
+    {
+        void *pu = b.is_buf ? a_buf_at_(b.b, idx) : a_vec_at_(b.v, idx);
+        VP_CHECK(r.cx, pu == p, "seq:at", "at_(%zu) differs from at(%zu)", idx, idx);
+        if (b.siz == 4) { VP_CHECK(r.cx, (b.is_buf ? (void *)A_BUF_AT(uint32_t, b.b, idx) : (void *)A_VEC_AT(uint32_t, b.v, idx)) == p, "seq:at", "typed AT macro differs from at(%zu)", idx); }
+    }
+    if (num)
+    {
+        void *tu = b.is_buf ? a_buf_top_(b.b) : a_vec_top_(b.v);
+        VP_CHECK(r.cx, tu == top, "seq:top", "top_ differs from top");
+        if (b.siz == 8) { VP_CHECK(r.cx, (b.is_buf ? (void *)A_BUF_TOP(uint64_t, b.b) : (void *)A_VEC_TOP(uint64_t, b.v)) == top, "seq:top", "typed TOP macro differs from top"); }
+    }
+    if (base && !b.is_buf) { VP_CHECK(r.cx, a_vec_end_(b.v) == end, "seq:end", "end_ differs from end"); }
     switch (b.siz)
     {
     case 1: check_foreach<uint8_t>(r, b); break;
